@@ -263,6 +263,7 @@ func checkMain(args []string) int {
 	}
 	P.countFns = true
 	P.debugAbort = true
+	P.branchProfile = os.Getenv("GOSYM_BRANCH_PROFILE") != ""
 	loadT := time.Since(t0)
 	workers := 16
 	if s := os.Getenv("VERIF_WORKERS"); s != "" {
